@@ -323,6 +323,144 @@ pub fn run(o: &DriveOpts, out: &mut dyn Write, tid: usize) -> Value {
         }
     }
 
+    if profile == "cycle" || profile == "cycletwin" {
+        // Deterministic life-cycles AT the limits (nothing here looks at the object: every call is inside the limits by
+        // construction, and a steering driver would walk around exactly the states this profile is for):
+        // a group grown to K members (mostly exactly 16) by one of three join patterns, while G background groups (mostly
+        // 13, so that the last two slots of the table are in use) stay alive; data on the member that joined last (and on
+        // others, now and then on all 16, now and then overwritten); "cycletwin": clone() or save+load at that full state,
+        // every later call mirrored on the copy; all data read (the last read collects the group); three of its ids
+        // re-created, read, bound into a new group that takes a slot over, read and collected; the id window rotates.
+        let twin_mode = profile == "cycletwin";
+        let nl = o.n.max(1).min(labels.len());
+        let span = o.cap.saturating_sub(26);
+        if span < 20 {
+            return json!({"t": tid, "profile": o.profile, "n": o.n, "cap": o.cap, "seed": o.seed, "events": rec.events, "panicked": false, "skipped": "capacity below 46"});
+        }
+        let ks = [16usize, 16, 15, 16, 2, 16, 8, 16];
+        let gs_ = [13usize, 0, 13, 12, 13, 5, 13, 1];
+        let mut bg = vec![false; 13];
+        let mut twin_alive = false;
+        let mut off = (o.seed as usize * 7) % span;
+        let mut round = (o.seed as usize) % 8;
+        macro_rules! go {
+            ($c:expr) => {{
+                let c: Call = $c;
+                ok = ok && rec.call(&mut w, HCall { h: 0, call: c.clone() });
+                if ok && twin_alive {
+                    rec.mirror_next = true;
+                    ok = rec.call(&mut w, HCall { h: 1, call: c });
+                }
+            }};
+        }
+        while ok && rec.events < o.steps {
+            let k = ks[round % 8];
+            let g = gs_[(round / 2 + round) % 8];
+            let pat = round % 3;
+            let bg_first = round % 4 != 3;
+            let m: Vec<usize> = (0..k).map(|i| (off + i) % span).collect();
+            let adjust_bg = |bg: &Vec<bool>| -> Vec<(usize, bool)> {
+                // (index, create?) : create the missing ones below g, release those at or above g
+                (0..13).filter_map(|i| if i < g && !bg[i] { Some((i, true)) } else if i >= g && bg[i] { Some((i, false)) } else { None }).collect()
+            };
+            if bg_first {
+                for (i, create) in adjust_bg(&bg) {
+                    let (a, b) = (o.cap - 2 * (i + 1), o.cap - 2 * (i + 1) + 1);
+                    if create {
+                        go!(Call::Add { v: a });
+                        go!(Call::Add { v: b });
+                        go!(Call::Bind { v1: if i % 2 == 0 { a } else { b }, v2: if i % 2 == 0 { b } else { a }, a: labels[i % nl].clone() });
+                        go!(Call::Put { v: b, d: datas[(i + round) % datas.len()].clone() });
+                    } else {
+                        go!(Call::Data { v: b });
+                    }
+                    bg[i] = create;
+                }
+            }
+            // the main group
+            for v in &m {
+                go!(Call::Add { v: *v });
+            }
+            for i in 1..k {
+                let par = m[(i - 1) / nl];
+                let down = match pat { 0 => true, 1 => false, _ => i % 2 == 0 };
+                if down {
+                    go!(Call::Bind { v1: par, v2: m[i], a: labels[(i - 1) % nl].clone() });
+                } else {
+                    go!(Call::Bind { v1: m[i], v2: par, a: labels[(round + i) % nl].clone() });
+                }
+            }
+            if !bg_first {
+                for (i, create) in adjust_bg(&bg) {
+                    let (a, b) = (o.cap - 2 * (i + 1), o.cap - 2 * (i + 1) + 1);
+                    if create {
+                        go!(Call::Add { v: a });
+                        go!(Call::Add { v: b });
+                        go!(Call::Bind { v1: a, v2: b, a: labels[i % nl].clone() });
+                        go!(Call::Put { v: b, d: datas[(i + round) % datas.len()].clone() });
+                    } else {
+                        go!(Call::Data { v: b });
+                    }
+                    bg[i] = create;
+                }
+            }
+            // data: always on the member that joined last; all members every fourth round
+            let mut holders: Vec<usize> = vec![m[k - 1]];
+            if round % 4 == 1 {
+                holders = m.clone();
+            } else {
+                if round % 2 == 0 {
+                    holders.push(m[0]);
+                }
+                if k > 4 {
+                    holders.push(m[k / 2]);
+                }
+            }
+            holders.dedup();
+            for (i, v) in holders.iter().enumerate() {
+                go!(Call::Put { v: *v, d: datas[(i + round) % datas.len()].clone() });
+            }
+            if round % 3 == 0 {
+                go!(Call::Put { v: holders[holders.len() / 2], d: datas[(round + 5) % datas.len()].clone() });   // over an unread datum
+            }
+            if twin_mode {
+                let c = if (round + o.seed as usize) % 2 == 0 { Call::Clone { dst: 1 } } else { Call::Reload { dst: 1 } };
+                ok = ok && rec.call(&mut w, HCall { h: 0, call: c });
+                twin_alive = ok && w.gs.get(1).map(|x| x.is_some()).unwrap_or(false);
+            }
+            // read everything (a second read of the first holder in between: Taken, counts nothing)
+            let order: Vec<usize> = if round % 2 == 0 { holders.clone() } else { holders.iter().rev().copied().collect() };
+            for (i, v) in order.iter().enumerate() {
+                go!(Call::Data { v: *v });
+                if i == 0 && order.len() > 1 {
+                    go!(Call::Data { v: *v });
+                }
+            }
+            // the group is gone: re-create three of its ids (the one that joined last first), read, bind, read
+            if k >= 3 {
+                let (x, y, z) = (m[k - 1], m[0], m[k / 2]);
+                if x != y && y != z && x != z {
+                    go!(Call::Add { v: x });
+                    go!(Call::Data { v: x });
+                    go!(Call::Add { v: y });
+                    go!(Call::Add { v: z });
+                    go!(Call::Bind { v1: x, v2: y, a: labels[(round + 1) % nl].clone() });
+                    go!(Call::Bind { v1: z, v2: x, a: labels[round % nl].clone() });
+                    go!(Call::Put { v: z, d: datas[(round + 2) % datas.len()].clone() });
+                    go!(Call::Put { v: x, d: datas[(round + 6) % datas.len()].clone() });
+                    go!(Call::Data { v: x });
+                    go!(Call::Data { v: x });
+                    go!(Call::Data { v: z });
+                }
+            } else {
+                // k = 2: the pair was collected above as well
+            }
+            off = (off + 5) % span;
+            round += 1;
+        }
+        return json!({"t": tid, "profile": o.profile, "n": o.n, "cap": o.cap, "seed": o.seed, "events": rec.events, "panicked": !ok, "rounds": round});
+    }
+
     if profile == "limits" {
         // many short histories: a prefix inside the limits, ONE call that oversteps a limit or a precondition, a few more
         // calls on the (possibly inconsistent) object for the sanitizer's sake, then a fresh graph
